@@ -71,6 +71,20 @@ func normaliseOps(ops []Op, progs map[string]*WireProg, self *WireProg, depth in
 		case o.Kind == "fn" && strings.HasPrefix(o.Typ, "closure "):
 			out = append(out, normaliseOps(o.Sub, progs, self, depth)...)
 			continue
+		case o.Kind == "fn" && !strings.HasPrefix(o.Typ, "closure "):
+			// a plain module function that takes the coder and a value (encodePolicy(e, p)): inline like an unpaired
+			// helper method, re-rooting its parameter-rooted paths at the argument's path
+			if callee := progs[o.Typ]; callee != nil && self != nil && callee.Side == self.Side && depth < 4 {
+				if _, paired := pairedSibling(progs, callee); !paired {
+					if callee == self {
+						out = append(out, Op{Kind: "rec", Pos: o.Pos})
+						continue
+					}
+					sub := normaliseOps(callee.Ops, progs, callee, depth+1)
+					out = append(out, rerootPaths(sub, o.Path)...)
+					continue
+				}
+			}
 		case o.Kind == "reset" || o.Kind == "sum":
 			continue
 		case o.Kind == "dyn":
@@ -251,6 +265,26 @@ func prefixPaths(ops []Op, prefix string) []Op {
 	return out
 }
 
+var paramRootRe = regexp.MustCompile(`^\{[^{}]*\}`)
+
+// rerootPaths replaces the parameter root ({pkg.T}) of every path by prefix.
+func rerootPaths(ops []Op, prefix string) []Op {
+	out := make([]Op, len(ops))
+	for i, o := range ops {
+		if loc := paramRootRe.FindStringIndex(o.Path); loc != nil {
+			o.Path = prefix + o.Path[loc[1]:]
+		}
+		o.Sub = rerootPaths(o.Sub, prefix)
+		var cs []OpCase
+		for _, c := range o.Cases {
+			cs = append(cs, OpCase{c.Tag, rerootPaths(c.Ops, prefix)})
+		}
+		o.Cases = cs
+		out[i] = o
+	}
+	return out
+}
+
 var localRe = regexp.MustCompile(`\$[A-Za-z_0-9]+`)
 
 func anonLocals(s string) string { return localRe.ReplaceAllString(s, "$") }
@@ -379,6 +413,29 @@ func coveredFields(wp *WireProg, progs map[string]*WireProg, write bool, seen ma
 					}
 				}
 			}
+			if o.Kind == "fn" && !strings.HasPrefix(o.Typ, "closure ") && o.Path == "" {
+				// plain helper function given the whole receiver: its parameter-rooted paths are receiver fields
+				if cand := progs[o.Typ]; cand != nil && cand.Side == wp.Side && !seen[cand] {
+					seen[cand] = true
+					var sub func(ops []Op)
+					sub = func(ops []Op) {
+						for _, so := range rerootPaths(ops, "") {
+							if strings.HasPrefix(so.Path, ".") {
+								f := so.Path[1:]
+								if i := strings.IndexAny(f, ".["); i >= 0 {
+									f = f[:i]
+								}
+								out[f] = true
+							}
+							sub(so.Sub)
+							for _, cs := range so.Cases {
+								sub(cs.Ops)
+							}
+						}
+					}
+					sub(cand.Ops)
+				}
+			}
 			visit(o.Sub)
 			for _, c := range o.Cases {
 				visit(c.Ops)
@@ -387,6 +444,31 @@ func coveredFields(wp *WireProg, progs map[string]*WireProg, write bool, seen ma
 	}
 	visit(wp.Ops)
 	return out
+}
+
+// progBySuffix finds the wire program of a function or method by its bare name when the exact key is gone
+// (method turned into a plain function or the reverse); the name must be unique.
+func progBySuffix(progs map[string]*WireProg, key string) *WireProg {
+	if wp := progs[key]; wp != nil {
+		return wp
+	}
+	name := key[strings.LastIndex(key, ".")+1:]
+	pkg := key[:strings.Index(key, ".")]
+	if i := strings.Index(key, ".("); i >= 0 {
+		pkg = key[:i]
+	} else if j := strings.LastIndex(key, "."); j >= 0 {
+		pkg = key[:j]
+	}
+	var found *WireProg
+	for k, wp := range progs {
+		if strings.HasPrefix(k, pkg+".") && strings.HasSuffix(k, "."+name) && wp.Fn.Name() == name {
+			if found != nil {
+				return nil
+			}
+			found = wp
+		}
+	}
+	return found
 }
 
 // fields not transmitted, each one named symbol with its reason
@@ -639,7 +721,7 @@ func c11V1Currency(c *Ctx, progs map[string]*WireProg) {
 func c11TagMaps(c *Ctx, progs map[string]*WireProg) {
 	type tm struct{ enc, dec string }
 	for _, t := range []tm{{"types.(V2FileContractResolution).EncodeTo", "types.(*V2FileContractResolution).DecodeFrom"}, {"types.(SpendPolicy).encodePolicy", "types.(*SpendPolicy).DecodeFrom"}} {
-		enc, dec := progs[t.enc], progs[t.dec]
+		enc, dec := progBySuffix(progs, t.enc), progBySuffix(progs, t.dec)
 		if enc == nil || dec == nil {
 			c.Undecided("tag-map", t.enc, "", "anchor not found")
 			continue
@@ -799,10 +881,22 @@ func canonCases(ops []Op) []Op {
 	return out
 }
 
+var (
+	helperRefRe = regexp.MustCompile(`ref\(([\w/.]+)\.[A-Za-z_]\w*\.([a-z]\w*)\)`)
+	helperFnRe  = regexp.MustCompile(`fn\(([\w/.]+)\.([a-z]\w*)\)`)
+)
+
 func layoutLines(wp *WireProg) []string {
-	ls := flatLines(canonCases(wp.Ops), true)
+	ops := canonCases(wp.Ops)
+	if wp.Recv == nil {
+		ops = rerootPaths(ops, "") // a plain function's data parameter plays the receiver's role
+	}
+	ls := flatLines(ops, true)
 	for i := range ls {
 		ls[i] = anonLocals(ls[i])
+		// an unexported helper is the same step whether it is a method of the value or a function taking it
+		ls[i] = helperRefRe.ReplaceAllString(ls[i], "helper($1.$2)")
+		ls[i] = helperFnRe.ReplaceAllString(ls[i], "helper($1.$2)")
 	}
 	return ls
 }
